@@ -307,6 +307,16 @@ func (w *world) exec(op M) {
 		if len(r.Cells()) > before {
 			w.rowItems[rid-1] = append(w.rowItems[rid-1], it)
 		}
+	case "rowaddcell":
+		// Row.Add of a by-value copy of an existing cell (its item, properties and callbacks come along)
+		rid := opInt(op, "r")
+		r := w.row(rid)
+		src := w.owner(opMap(op, "from")).(*tabular.Cell)
+		before := len(r.Cells())
+		r.Add(*src)
+		if len(r.Cells()) > before {
+			w.rowItems[rid-1] = append(w.rowItems[rid-1], src.Item())
+		}
 	case "addrow":
 		w.table(opInt(op, "t")).AddRow(w.row(opInt(op, "r")))
 	case "snapshot", "nop":
